@@ -19,7 +19,7 @@
     Keys are indices into a pool; "signed by Priv k verifies under Pub k" and the
     parsing of PEM/X.509/JSON are trusted (see the level note). *)
 From HV Require Import Base.Prelude C16.Model C16.Spec C16.Proofs C16.Locks C16.LocksProofs
-  C16.Conc C16.ConcProofs C16.ConcExamples C16.ConcWindow C16.ConcFine C16.ConcFineProofs.
+  C16.Conc C16.ConcProofs C16.ConcExamples C16.ConcWindow C16.ConcSkel C16.ConcGen C16.ConcGenProofs.
 Open Scope string_scope.
 
 (** sub, iss, iat, nbf, exp, jti are the signer's, whatever the custom claims say;
@@ -370,6 +370,19 @@ Theorem C16_conc_F2_pinned_refuted :
 Proof. exact conc_F2_pinned_refuted. Qed.
 Print Assumptions C16_conc_F2_pinned_refuted.
 
+(** C16-F1 as it was, in the concurrent machine: a cache key without the key itself lets a call that starts
+    after a same-kid same-algorithm key replacement reuse the replaced key's token; with both repairs it signs afresh *)
+Theorem C16_conc_F1_pinned_refuted :
+  exists t0 t1,
+    let g := crun {| fx_F1 := false; fx_F2 := true |} f2_cfg ex_sched_F1 (cinit (ex_st ex_A) ex_calls_F1) in
+    result 0 g = Some (Ok t0) /\ result 1 g = Some (Ok t0) /\
+    t_key t0 = Priv (r_key (f2_entry 7 "key-a")) /\ s_key (g_st g) = Priv (r_key (f2_entry 9 "key-a")) /\
+    verifies t0 (published f2_cfg (g_st g)) = false /\
+    result 1 (crun fx_all f2_cfg ex_sched_F1 (cinit (ex_st ex_A) ex_calls_F1)) = Some (Ok t1) /\
+    t_key t1 = Priv (r_key (f2_entry 9 "key-a")).
+Proof. exact conc_F1_pinned_refuted. Qed.
+Print Assumptions C16_conc_F1_pinned_refuted.
+
 (** a reload between a call's Sign section and its return: the returned token does not verify against the
     key set published at the moment of return (it does against the one of the Sign section's moment) *)
 Theorem C16_conc_return_after_reload :
@@ -383,59 +396,82 @@ Proof. exact conc_return_after_reload. Qed.
 Print Assumptions C16_conc_return_after_reload.
 
 (** ------------------------------------------------------------------------------------------------
-    DOWN TO LOCK OPERATIONS AND FIELD ACCESSES (C16/ConcFine.v).  In the fine machine RLock / RUnlock / Lock /
-    Unlock and every single access to s.jwk, s.key, s.pubKeys are steps of their own, the RWMutex blocks (a
-    thread whose lock operation is not admitted stays where it is), a reload is a thread (parse outside the
-    lock; Lock; three assignments; Unlock) and so is a JWKS request.  [abs] forgets the inside of critical
-    sections ([abs_st]: while a reload holds the lock, the state it is installing; else the fields as they are);
-    [tr_sched] keeps of a fine schedule the steps that release a read lock, acquire the write lock, operate on
+    DOWN TO LOCK OPERATIONS AND FIELD ACCESSES (C16/ConcGen.v), FOR ALL SECTION PROGRAMS THAT PASS THE CHECK.
+    In the fine machine RLock / RUnlock / Lock / Unlock and every single access to s.jwk, s.key, s.pubKeys are
+    steps of their own, the RWMutex blocks (a thread whose lock operation is refused stays where it is), a
+    reload is a thread (parse outside the lock; Lock; assignments; Unlock) and so is a JWKS request.  Which
+    fields the read sections of Hash / signWithHash / Keys read, in which order, and which fields load assigns
+    inside its write section is a parameter [P : progs]; the driver reads [P] off the lock skeleton extracted
+    from jwt_signer.go on every run ([programs]) and the evaluator checks [progs_ok P] (Hash reads jwk, Sign jwk
+    and key, Keys pubKeys, load assigns all three) together with [exec_shape] (Execute = Hash section, Get,
+    Sign section, Set with the key from Sign, header).  [gabs] forgets the inside of critical sections
+    ([gabs_st]: while a reload holds the lock, the state it is installing; else the fields as they are);
+    [gtr_sched] keeps of a fine schedule the steps that release a read lock, acquire the write lock, operate on
     the cache or return.  Every fine schedule is then a schedule of the machine with atomic sections: *)
-Theorem C16_fine_is_atomic : forall fx c st calls files n fs,
-  abs (frun fx c fs (finit st calls files n)) =
-  crun fx c (tr_sched fx c (finit st calls files n) fs) (cinit st calls).
-Proof. exact fine_is_atomic. Qed.
+Theorem C16_fine_is_atomic : forall fx P c st calls files n fs,
+  progs_ok P = true ->
+  gabs (grun fx P c fs (ginit st calls files n)) =
+  crun fx c (gtr_sched fx P c (ginit st calls files n) fs) (cinit st calls).
+Proof. intros fx P c st calls files n fs POK. exact (gen_is_atomic fx P POK c st calls files n fs). Qed.
 Print Assumptions C16_fine_is_atomic.
 
 (** ... step by step, with the invariant that a writer excludes readers and other writers, that what a reader
-    has copied so far are the current field values, and that the writer has assigned the fields it has passed *)
-Theorem C16_fine_refines : forall fx c s g, finv g ->
-  abs (frun fx c s g) = crun fx c (tr_sched fx c g s) (abs g) /\ finv (frun fx c s g).
-Proof. exact fine_refines. Qed.
+    has copied so far are the current field values (and every field of its program it has passed), and that
+    every field is the new one or still to be assigned by the writer *)
+Theorem C16_fine_refines : forall fx P c s g,
+  progs_ok P = true -> ginv P g ->
+  gabs (grun fx P c s g) = crun fx c (gtr_sched fx P c g s) (gabs g) /\ ginv P (grun fx P c s g).
+Proof. intros fx P c s g POK. exact (gen_refines fx P POK c s g). Qed.
 Print Assumptions C16_fine_refines.
 
 (** and so, for all interleavings at that level: a returned token belongs to the moment at which the call
-    itself releases the read lock of its Hash() section or of its signWithHash() section — [lin] = the
-    signer's three fields at that moment is what ONE file loaded, and the token is what Sign makes from it for
-    this request: signed with the key then active, naming its key id and algorithm, verifying against the key
-    set then published *)
-Theorem C16_fine_token_of_own_section : forall c st0 calls files n fs i th t,
-  loaded c st0 ->
-  nth_error (f_exs (frun fx_all c fs (finit st0 calls files n))) i = Some th -> et_pc th = EDone (Ok t) ->
+    itself releases the read lock of its Hash section or of its Sign section — [lin] = the signer's three
+    fields at that moment is what ONE file loaded, and the token is what Sign makes from it for this request:
+    signed with the key then active, naming its key id and algorithm, verifying against the key set then
+    published *)
+Theorem C16_fine_token_of_own_section : forall P c st0 calls files n fs i th t,
+  progs_ok P = true -> loaded c st0 ->
+  nth_error (h_exs (grun fx_all P c fs (ginit st0 calls files n))) i = Some th -> gt_pc th = GDone (Ok t) ->
   exists fs1 fs2 cl thm,
-    fs = fs1 ++ FEx i :: fs2 /\ nth_error calls i = Some cl /\
-    let gm := frun fx_all c fs1 (finit st0 calls files n) in
-    nth_error (f_exs gm) i = Some thm /\
-    ((exists j, et_pc thm = EHRead j) \/ (exists k0 j k, et_pc thm = ESRead2 k0 j k)) /\
-    let lin := f_sh gm in
+    fs = fs1 ++ GEx i :: fs2 /\ nth_error calls i = Some cl /\
+    let gm := grun fx_all P c fs1 (ginit st0 calls files n) in
+    nth_error (h_exs gm) i = Some thm /\
+    ((exists cp, gt_pc thm = GHash [] cp) \/ (exists k0 cp, gt_pc thm = GSign k0 [] cp)) /\
+    let lin := h_sh gm in
     loaded c lin /\ made lin cl t /\
     t_key t = s_key lin /\ t_kid t = j_kid (s_jwk lin) /\ t_alg t = j_alg (s_jwk lin) /\
     verifies t (published c lin) = true.
-Proof. intro c. exact (fine_token_of_own_section fx_all eq_refl eq_refl c). Qed.
+Proof. intros P c st0 calls files n fs i th t POK. exact (gen_token_of_own_section fx_all eq_refl eq_refl P POK c st0 calls files n fs i th t). Qed.
 Print Assumptions C16_fine_token_of_own_section.
 
-(** example (vm_compute): a reload waits for a reader, readers and a JWKS request wait for the reload, the
-    fields are torn in the middle of the write section where nobody can look; the translated schedule *)
+(** example (vm_compute), with the programs of the tree as it is: a reload waits for a reader, readers and a
+    JWKS request wait for the reload, the fields are torn in the middle of the write section where nobody can
+    look; the translated schedule *)
 Theorem C16_fine_nonvacuous :
-  let g0 := finit (ex_st ex_A) [ex_call "alice" 1000000000000; ex_call "alice" 1001000000000] [ex_B] 1 in
-  let at_ n := frun fx_all f2_cfg (firstn n fx_sched) g0 in
+  let g0 := ginit (ex_st ex_A) [ex_call "alice" 1000000000000; ex_call "alice" 1001000000000] [ex_B] 1 in
+  let at_ n := grun fx_all progs_now f2_cfg (firstn n fx_sched) g0 in
   exists t,
-    map et_pc (f_exs (at_ 27)) = [EDone (Ok t); EDone (Ok t)] /\ t_kid t = "key-b" /\
-    map rt_pc (f_rls (at_ 3)) = [RInit] /\ writers (at_ 5) = true /\
-    map et_pc (f_exs (at_ 8)) = [EKeyed (key_of fx_all f2_cfg (ex_st ex_A) (q_of "alice")); EInit] /\ f_jws (at_ 8) = [JInit] /\
-    s_jwk (f_sh (at_ 8)) = s_jwk (ex_st ex_B) /\ s_key (f_sh (at_ 8)) = s_key (ex_st ex_A) /\
-    f_sh (at_ 13) = ex_st ex_B /\ writers (at_ 13) = false /\
-    f_jwks (at_ 27) = [[spec_jwk (f2_entry 8 "key-b")]] /\
-    tr_sched fx_all f2_cfg g0 fx_sched =
+    map gt_pc (h_exs (at_ 27)) = [GDone (Ok t); GDone (Ok t)] /\ t_kid t = "key-b" /\
+    map grt_pc (h_rls (at_ 3)) = [GRInit] /\ gwriters (at_ 5) = true /\
+    map gt_pc (h_exs (at_ 8)) = [GKeyed (key_of fx_all f2_cfg (ex_st ex_A) (q_of "alice")); GInit] /\ h_jws (at_ 8) = [GJInit] /\
+    s_jwk (h_sh (at_ 8)) = s_jwk (ex_st ex_B) /\ s_key (h_sh (at_ 8)) = s_key (ex_st ex_A) /\
+    h_sh (at_ 13) = ex_st ex_B /\ gwriters (at_ 13) = false /\
+    h_jwks (at_ 27) = [[spec_jwk (f2_entry 8 "key-b")]] /\
+    gtr_sched fx_all progs_now f2_cfg g0 fx_sched =
       [SThread 0; SReload ex_B; SThread 0; SThread 0; SThread 0; SThread 0; SJwks; SThread 1; SThread 1; SThread 1].
 Proof. exact fine_nonvacuous. Qed.
 Print Assumptions C16_fine_nonvacuous.
+
+(** which programs pass: those of the tree as it is, and e.g. ones that read the key before the JWK or assign
+    the published set first; not a Sign section without the key, not a write section that leaves a field out;
+    a Sign method that is not ONE section has no programs at all *)
+Theorem C16_fine_programs :
+  progs_ok progs_now = true /\ progs_ok progs_alt = true /\
+  progs_ok {| p_hash := [FJwk]; p_sign := [FJwk]; p_keys := [FPub]; p_load := [FJwk; FKey; FPub] |} = false /\
+  progs_ok {| p_hash := [FJwk]; p_sign := [FJwk; FKey]; p_keys := [FPub]; p_load := [FJwk; FKey] |} = false /\
+  programs skeleton_now xs_fixed = Some progs_now /\
+  programs [("load", [ELock; EDeferUnlock; EWrite FJwk; EWrite FKey; EWrite FPub; ERet]); ("Hash", [ERLock; ERead FJwk; ERUnlock]);
+            ("signWithHash", [ERLock; ERead FJwk; ERUnlock; ERLock; ERead FKey; ERUnlock; ERet]);
+            ("Keys", [ERLock; EDeferRUnlock; ERead FPub; ERet])] xs_fixed = None.
+Proof. exact progs_examples. Qed.
+Print Assumptions C16_fine_programs.
